@@ -66,7 +66,8 @@ Definition in_any (rs : list rect) (p : cell) : bool := existsb (fun r => cell_i
 
 (* every changed cell lies in the damage handed to the root, belongs to a window, and
    shows something that window's program can draw THERE: its own character for the cell's
-   position relative to it, a blank or a line glyph *)
+   position relative to it, a blank or a line glyph (which glyph is compared
+   exactly by the correspondence check: the model merges segment bits under the mask rule) *)
 Definition c02_cells_checkb (app : Z -> Z -> Z -> Z) (t : wtree) (nl nc : Z)
   (before after : cell -> Z) (damage : list rect) : bool :=
   forallb (fun p =>
@@ -74,7 +75,7 @@ Definition c02_cells_checkb (app : Z -> Z -> Z -> Z) (t : wtree) (nl nc : Z)
              in_any damage p &&
              match owner t p with
              | Some (id, q) =>
-               (after p =? app id (fst q) (snd q)) || (after p =? BLANK) || (after p =? LINECH)
+               (after p =? app id (fst q) (snd q)) || (after p =? BLANK) || is_line (after p)
              | None => false
              end) (grid_cells nl nc).
 
@@ -232,3 +233,37 @@ Definition c01_pending_checkb (app : Z -> Z -> Z -> Z) (t : wtree) (nl nc : Z) (
                     | None => true
                     end) (grid_cells nl nc) &&
   (match damage with [] => true | _ :: _ => nexp && later end).
+
+(* ------------------------------------------------------------------------------------ *)
+(* C02, exact form: what one flush does to the screen when the handlers run arbitrary
+   drawing programs.  A cell inside the damage that belongs to window w ends up with what
+   w's OWN program, run on an empty cell at the cell's position relative to w, leaves there
+   (nothing, if the program does not touch it or skips it last); every other cell keeps
+   its content.  Line segments accumulate within the owner's program only. *)
+Definition cell_after (app : Z -> Z -> Z -> Z) (prog : list dop) (id : Z) (handed : rect) (nl nc : Z)
+  (q : cell) : option Z :=
+  fold_left (fun v o =>
+               match dop_cells app id handed nl nc o q with
+               | Some (PSet c) => Some c
+               | Some PSkip => None
+               | Some (PLine b) =>
+                 Some (LINEBASE + Z.lor (match v with Some c => if is_line c then c - LINEBASE else 0 | None => 0 end) b)
+               | None => v
+               end) prog None.
+
+Definition c02_exact_checkb (app : Z -> Z -> Z -> Z) (progs : Z -> list dop) (t : wtree) (nl nc : Z)
+  (before after : cell -> Z) (log : list (Z * rect)) : bool :=
+  let damage := map snd (filter (fun e => fst e =? t_id t) log) in
+  forallb (fun p =>
+             match (if in_any damage p then owner t p else None) with
+             | Some (w, q) =>
+               match find (fun e => (fst e =? w) && cell_inb (snd e) q) log with
+               | Some (_, handed) =>
+                 match cell_after app (progs w) w handed nl nc q with
+                 | Some c => after p =? c
+                 | None => after p =? before p
+                 end
+               | None => after p =? before p
+               end
+             | None => after p =? before p
+             end) (grid_cells nl nc).
